@@ -39,6 +39,7 @@ const (
 	decInvariant      = 18
 	decNonWritable    = 24
 	decLocation       = 30
+	decIndex          = 32
 	decBinding        = 33
 	decDescriptorSet  = 34
 )
@@ -51,7 +52,8 @@ var spvModel = map[string]uint32{"vertex": 0, "fragment": 4, "compute": 5}
 
 type c17Fail func(class, detail string)
 
-func c17SPIRV(p *wgen.F5Program, m *ir.Module, ver spirv.Version, fail c17Fail, count func()) {
+// blend maps "entry/io name" to the @blend_src index of a dual-source output (nil: none modelled).
+func c17SPIRV(p *wgen.F5Program, m *ir.Module, ver spirv.Version, fail c17Fail, count func(), blend map[string]int) {
 	b, err, pn := nagax.SPIRV(m, spirv.Options{Version: ver, Debug: true})
 	if err != nil || pn != nil {
 		return
@@ -221,6 +223,7 @@ func c17SPIRV(p *wgen.F5Program, m *ir.Module, ver spirv.Version, fail c17Fail, 
 			cls   uint32
 			loc   int
 			bi    int
+			idx   int
 			flat, nopersp, centroid, sample, invariant bool
 		}
 		var ios []ioVar
@@ -234,7 +237,10 @@ func c17SPIRV(p *wgen.F5Program, m *ir.Module, ver spirv.Version, fail c17Fail, 
 				continue
 			}
 			if cls == scInput || cls == scOutput {
-				v := ioVar{id: id, cls: cls, loc: -1, bi: -1}
+				v := ioVar{id: id, cls: cls, loc: -1, bi: -1, idx: -1}
+				if ix, ok := dec(id, -1, decIndex); ok {
+					v.idx = int(ix)
+				}
 				if l, ok := dec(id, -1, decLocation); ok {
 					v.loc = int(l)
 				}
@@ -275,6 +281,7 @@ func c17SPIRV(p *wgen.F5Program, m *ir.Module, ver spirv.Version, fail c17Fail, 
 		}
 		check := func(io wgen.F5IO, dir string, cls uint32) {
 			var hit *ioVar
+			wantIdx, dual := blend[e.Name+"/"+io.Name]
 			for i := range ios {
 				v := &ios[i]
 				if v.cls != cls {
@@ -285,7 +292,11 @@ func c17SPIRV(p *wgen.F5Program, m *ir.Module, ver spirv.Version, fail c17Fail, 
 						hit = v
 					}
 				} else if v.loc == io.Location && v.bi < 0 {
-					hit = v
+					// the two dual-source outputs share the location and differ by Index: prefer the variable
+					// with the wanted Index, fall back to any variable at the location
+					if hit == nil || (dual && v.idx == wantIdx && hit.idx != wantIdx) || !dual {
+						hit = v
+					}
 				}
 			}
 			tag := io.Builtin
@@ -295,6 +306,14 @@ func c17SPIRV(p *wgen.F5Program, m *ir.Module, ver spirv.Version, fail c17Fail, 
 			if hit == nil {
 				fail(vtag+":io-missing", fmt.Sprintf("%s: no %s variable for %s %s", e.Name, dir, tag, io.Name))
 				return
+			}
+			if io.Builtin == "" && cls == scOutput && e.Stage == "fragment" {
+				if dual && hit.idx != wantIdx {
+					fail(vtag+":blend-src-index", fmt.Sprintf("%s %s %s: @blend_src(%d) output carries Index %d (-1 = no Index decoration)", e.Name, dir, tag, wantIdx, hit.idx))
+				}
+				if !dual && hit.idx > 0 {
+					fail(vtag+":blend-src-index", fmt.Sprintf("%s %s %s: output without @blend_src carries Index %d", e.Name, dir, tag, hit.idx))
+				}
 			}
 			inter := (e.Stage == "fragment" && dir == "in") || (e.Stage == "vertex" && dir == "out")
 			if inter && io.Builtin == "" {
@@ -596,8 +615,8 @@ func c17Program(r *explore.Run, p *wgen.F5Program) {
 		r.Violate(explore.Violation{Key: key, Detail: class + ": " + detail + "\nprogram " + p.Sig, Replay: map[string]any{"sig": p.Sig, "src": p.Src}})
 	}
 	count := func() { r.Count("evaluations", 1) }
-	c17SPIRV(p, m, spirv.Version1_1, fail, count)
-	c17SPIRV(p, m, spirv.Version1_4, fail, count)
+	c17SPIRV(p, m, spirv.Version1_1, fail, count, nil)
+	c17SPIRV(p, m, spirv.Version1_4, fail, count, nil)
 	c17HLSL(p, m, false, fail, count)
 	c17HLSL(p, m, true, fail, count)
 	c17MSL(p, m, fail, count)
@@ -610,6 +629,17 @@ func runC17() int {
 	progs := wgen.F5Programs(r.Thorough())
 	r.Count("programs", int64(len(progs)))
 	r.ParallelFor(len(progs), func(i int) { c17Program(r, progs[i]) })
+	rprogs := c17ReflSelect(progs, r.Thorough())
+	r.Extra("reflection_sweep_programs", len(rprogs))
+	r.ParallelFor(len(rprogs), func(i int) { c17ReflProgram(r, rprogs[i]) })
+	xprogs := wgen.F5XPrograms(r.Thorough())
+	r.Count("programs", int64(len(xprogs)))
+	r.Extra("attribute_order_programs", len(xprogs))
+	r.ParallelFor(len(xprogs), func(i int) { c17XProgram(r, xprogs[i]) })
+	eps := wgen.F5EPModules()
+	r.Count("programs", int64(len(eps)))
+	r.Extra("entry_point_map_modules", len(eps))
+	r.ParallelFor(len(eps), func(i int) { c17EPModule(r, eps[i]) })
 	if len(progs) > 0 {
 		p := progs[len(progs)/2]
 		r.Sample(map[string]any{"program": p.Sig, "source": p.Src})
